@@ -180,6 +180,14 @@ int flush_pubsub_msgs(void *data, const char *key, void *value) {
         M_WARN("Failed to create flushing queue.\n");
     }
 
+    if (!stopping_mod && flushed && m_mod_is(mod, M_MOD_RUNNING)) {
+        /* Events the module is still batching arrived before anything left in its pipe: hand them over first */
+        evt_priv_t *batched;
+        while ((batched = m_queue_dequeue(mod->batch.events))) {
+            m_queue_enqueue(flushed, batched);
+        }
+    }
+
     while (mod->pubsub_fd[0] != -1 &&
         read(mod->pubsub_fd[0], &mm, sizeof(ps_priv_t *)) == sizeof(ps_priv_t *)) {
         /*
